@@ -26,6 +26,9 @@ func Wait() { synctest.Wait() }
 func Run(t *testing.T, realTimeout time.Duration, onHang func(), f func()) (res Result) {
 	var wd *time.Timer
 	if realTimeout > 0 {
+		// generous: a scenario takes milliseconds; the budget only has to separate "slow because the
+		// machine is loaded" from "stuck" (a mutex dead-lock is invisible to the virtual clock)
+		realTimeout *= 3
 		wd = time.AfterFunc(realTimeout, func() {
 			if onHang != nil {
 				onHang()
